@@ -16,6 +16,22 @@ CLAIMED = {
    "writer/replica session PBT: exhaustive single-request family for all growth pairs n1<=n2<=N, all fetch orders for n<=5, seeded-random sessions (proptest), replica model from the writer's blocks, convergence loop",
    "Honest requests of every shape are generated from the replica's own state; every created proof must be accepted and the replica must equal the model derived from the writer's data, across replica reopen, ending with the standard fetch-everything loop.",
    "writer-side Err is treated as 'no proof' (documented refusals), counted per request shape in the evidence"),
+ "C04": ("exploration",
+   "complete single-field proof alteration set + random 2-4 combinations + systematic forgeries (second writer/other key, substituted block with recomputed parents, exchanged signatures, replays) against replica snapshots; refused=>unchanged, accepted=>only signed data, convergence oracle",
+   "For honest proofs of every request shape (exhaustive single-request family for small logs, seeded-random sessions beyond) every single-field alteration is generated and applied to a byte copy of the replica; a refused proof must leave observation and stored state unchanged, an accepted one must leave only writer-signed data and honest replication must still converge.",
+   "size fields of the bottom node of hash-only and seek sections are excluded by construction (counted in the evidence), as in the statement; Ed25519/BLAKE2b are trusted"),
+ "C07": ("fault_enumeration",
+   "crash-point enumeration with a torn last write: all proper byte prefixes for writes <= 64 bytes, framing boundaries + 512-byte multiples + seeded cuts beyond; before-or-after oracle + usability suffix",
+   "Same histories, journal and oracle as C02; every crash point whose next operation is a write is additionally explored with only a byte prefix of that write applied.",
+   "assumes a torn write leaves exactly a byte prefix of the data in the store and everything before it is durable"),
+ "C09": ("exploration",
+   "boundary cross-product of request tuples over 75 generated cores + seeded-random stateful peer calls (boundary-relative requests, structurally arbitrary proofs, altered honest proofs) under catch_unwind and a hang watchdog, with a usability check after calls",
+   "create_proof and verify_and_apply_proof are called with peer-controlled values from the boundary sets of the statement (complete product in thorough) and with generated arbitrary/altered proofs; any panic, abort or confirmed hang is a violation; afterwards the core must still answer.",
+   "numeric fields below 2^40 and 32-byte node hashes (what the wire decoder yields); a hang is reported as violation only after confirmation in an isolated subprocess"),
+ "C10": ("fault_enumeration",
+   "single-fault injection at every storage operation index (reads and length queries included) x generated writer and replica histories; error-surfacing + reopen before-or-after + usability oracle",
+   "For each generated history a dry run counts the storage operations; the history is re-run once per operation index with that operation failing. All indices are enumerated, histories are bounded-exhaustive for short lengths and seeded-random beyond.",
+   "the failing operation has no effect on the store; one fault per run"),
 }
 
 PENDING_REASON = "check under construction in this round (designed in DESIGN.md §3, not yet registered)"
